@@ -56,7 +56,8 @@ Definition vin_consistent (i : vin) : bool :=
 Inductive handler :=
 | HModule | HClass
 | HFunction (labels : list string)     (* handle_function(node, labels): the labels a definition starts with *)
-| HAttribute | HAnnAttribute | HAugAssign | HImport | HImportFrom | HIf.
+| HAttribute | HAnnAttribute | HAugAssign | HImport | HImportFrom | HIf
+| HExpr.                               (* expression statements: <all_receiver>.<all_methods>(x) extends the exports *)
 (* how assignments.py builds the name of a target node *)
 Inductive name_builder := NBName | NBAttribute.
 
